@@ -491,6 +491,14 @@ def cases_state_predicate(true_for):
     return mk
 
 
+def cases_afftree_merge():
+    t = atom('ARENA_TREE')
+    me = struct('pwl::afftree::AffTree', tree=t, in_dim=atom('DIM'))
+    P = atom('P')
+    return [('any decision', [me, P, L], ok(atom('REMOVED')),
+             {'returns': {'Tree::merge_child_with_parent': ok(atom('REMOVED'))}, 'calls': [('Tree::merge_child_with_parent', [t, P, L])]})]
+
+
 def cases_replace_node():
     t = atom('ARENA_TREE')
     me = struct('pwl::afftree::AffTree', tree=t, in_dim=atom('DIM'))
@@ -541,6 +549,7 @@ TABLES.update({
     'NodeState::is_feasible': (cases_state_predicate({'Feasible', 'FeasibleWitness'}), 'true exactly for Feasible and FeasibleWitness'),
     'NodeState::is_infeasible': (cases_state_predicate({'Infeasible'}), 'true exactly for Infeasible'),
     'NodeState::is_indetermined': (cases_state_predicate({'Indeterminate'}), 'true exactly for Indeterminate'),
+    'AffTree::merge_child_with_parent': (cases_afftree_merge, 'the arena tree\'s merge of the same (parent, label)'),
     'AffTree::replace_node': (cases_replace_node, 'the root keeps its place and gets the new function; any other node is detached from its parent slot (with its descendants) and a fresh node with the new function is attached to that same slot'),
     '<PolyhedraIter as Iterator>::size_hint': (cases_polyiter_size_hint, 'the bounds kept by the wrapped depth-first traversal'),
 })
@@ -907,10 +916,10 @@ RULE_TEXT = ('the small accessors this property\'s rules read by name do what th
              'the contract\'s value in every case')
 DEPS = {'C01': ['Tree::children', 'Tree::is_leaf', 'Tree::num_children', 'Tree::parent', 'Tree::contains', 'Tree::get_root', 'AffFuncBase::indim', 'AffFuncBase::outdim', 'afftree_from_layers', 'afftree_from_layers_verbose', 'afftree_from_layers_csv', 'Tree::terminals', 'AffTree::terminals', 'NodeState::is_feasible', 'NodeState::is_infeasible', 'NodeState::is_indetermined'],
         'C02': ['Tree::children', 'Tree::is_leaf', 'Tree::get_root', '<AffFuncBase as Clone>::clone', 'AffFuncBase::indim', 'AffFuncBase::outdim', '<AffTree as Clone>::clone'],
-        'C03': ['Tree::children', 'Tree::contains', 'Tree::num_children', 'Tree::parent', 'Tree::is_leaf', 'NodeState::is_feasible', 'NodeState::is_infeasible', 'NodeState::is_indetermined'],
-        'C04': ['InputError::expect_dim', 'Tree::is_leaf', 'AffFuncBase::indim', 'AffFuncBase::outdim', 'AffFuncBase::n_constraints', 'TreeNode::new', 'Tree::with_root', 'AffTree::replace_node', 'Tree::terminals', 'AffTree::terminals'],
+        'C03': ['Tree::children', 'Tree::contains', 'Tree::num_children', 'Tree::parent', 'Tree::is_leaf', 'NodeState::is_feasible', 'NodeState::is_infeasible', 'NodeState::is_indetermined', 'AffTree::merge_child_with_parent'],
+        'C04': ['InputError::expect_dim', 'Tree::is_leaf', 'AffFuncBase::indim', 'AffFuncBase::outdim', 'AffFuncBase::n_constraints', 'TreeNode::new', 'Tree::with_root', 'AffTree::replace_node', 'Tree::terminals', 'AffTree::terminals', 'AffTree::merge_child_with_parent'],
         'C05': ['Tree::parent', 'Tree::children', 'Tree::contains', 'Tree::node_value', 'AffContent::feasible_witnesses', 'NodeState::is_feasible', 'NodeState::is_infeasible', 'NodeState::is_indetermined'],
-        'C06': ['Tree::contains', 'Tree::num_children', 'Tree::parent', 'Tree::children', 'NodeState::is_feasible', 'NodeState::is_infeasible', 'NodeState::is_indetermined'],
+        'C06': ['Tree::contains', 'Tree::num_children', 'Tree::parent', 'Tree::children', 'NodeState::is_feasible', 'NodeState::is_infeasible', 'NodeState::is_indetermined', 'AffTree::merge_child_with_parent'],
         'C07': ['<AffFuncBase as Clone>::clone', 'Tree::children', 'Tree::is_leaf', '<TraversalIter as Iterator>::next', '<AffTree as Clone>::clone', '<Tree as Clone>::clone'],
         'C08': ['TreeNode::children_iter', 'tree::iter::TraversalMut::iter', '<TraversalIter as Iterator>::next', 'Tree::tree_node'],
         'C09': ['Tree::parent', 'Tree::child', 'Tree::children', 'Tree::get_root', 'Tree::node_value', 'Tree::num_children', '<TraversalIter as Iterator>::next', 'PolyhedraGen::current_polytope', 'PolyhedraIter::skip_subtree'],
